@@ -10,7 +10,7 @@ package nyctalerts
 // A group alert is well formed when its informed entities are non-nil, carry a stop id, and no stop id occurs twice
 // (C17: "exactly the distinct platform ids (or station ids) of the group's members").
 //@ pure func groupOK(a *gtfsrt.Alert) bool = a != nil && (forall k int :: 0 <= k && k < len(a.InformedEntity) ==> a.InformedEntity[k] != nil && a.InformedEntity[k].StopId != nil) && (forall x int, y int :: 0 <= x && x < y && y < len(a.InformedEntity) ==> *a.InformedEntity[x].StopId != *a.InformedEntity[y].StopId)
-//@ pure func groupsOK(e extension) bool = e.elevatorAlerts != nil && (forall g string :: has(e.elevatorAlerts, g) ==> e.elevatorAlerts[g] != nil) && (forall g string, k int :: has(e.elevatorAlerts, g) && 0 <= k && k < len(e.elevatorAlerts[g].InformedEntity) ==> e.elevatorAlerts[g].InformedEntity[k] != nil && e.elevatorAlerts[g].InformedEntity[k].StopId != nil)
+//@ pure func groupsOK(e extension) bool = e.elevatorAlerts != nil && (forall g string :: has(e.elevatorAlerts, g) ==> e.elevatorAlerts[g] != nil && (cap(e.elevatorAlerts[g].InformedEntity) == 0 || obj(e.elevatorAlerts[g].InformedEntity) > obj(e.elevatorAlerts))) && (forall g string, k int :: has(e.elevatorAlerts, g) && 0 <= k && k < len(e.elevatorAlerts[g].InformedEntity) ==> e.elevatorAlerts[g].InformedEntity[k] != nil && e.elevatorAlerts[g].InformedEntity[k].StopId != nil)
 //@ pure func distinctStops(a *gtfsrt.Alert) bool = forall x int, y int :: 0 <= x && x < y && y < len(a.InformedEntity) ==> *a.InformedEntity[x].StopId != *a.InformedEntity[y].StopId
 //@ pure func informsStop(a *gtfsrt.Alert, id string) bool = exists k int :: 0 <= k && k < len(a.InformedEntity) && *a.InformedEntity[k].StopId == id
 
@@ -48,6 +48,7 @@ package nyctalerts
 //@   ensures [groups-stay-well-formed] groupsOK(e)
 //@   ensures [no-stop-listed-twice] elevatorID(old(*ID)) && (old(has(e.elevatorAlerts, groupID(e.opts.ElevatorAlertsDeduplicationPolicy, *ID))) ==> old(distinctStops(e.elevatorAlerts[groupID(e.opts.ElevatorAlertsDeduplicationPolicy, *ID)]))) ==> distinctStops(e.elevatorAlerts[*ID])
 //@   ensures [only-this-members-stop-is-added] elevatorID(old(*ID)) && old(has(e.elevatorAlerts, groupID(e.opts.ElevatorAlertsDeduplicationPolicy, *ID))) ==> len(e.elevatorAlerts[*ID].InformedEntity) <= old(len(e.elevatorAlerts[groupID(e.opts.ElevatorAlertsDeduplicationPolicy, *ID)].InformedEntity)) + 1 && (forall k int :: 0 <= k && k < old(len(e.elevatorAlerts[groupID(e.opts.ElevatorAlertsDeduplicationPolicy, *ID)].InformedEntity)) ==> e.elevatorAlerts[*ID].InformedEntity[k] == old(e.elevatorAlerts[groupID(e.opts.ElevatorAlertsDeduplicationPolicy, *ID)].InformedEntity[k]))
+//@   assigns *ID, alert.Cause, alert.Effect, alert.InformedEntity, eachval(e.elevatorAlerts).InformedEntity, entries(e.elevatorAlerts), since(e.elevatorAlerts, "*gtfsrt.EntitySelector")
 //@   loop 1 invariant deduplicatedAlert != nil && (forall j int :: 0 <= j && j < $i ==> *deduplicatedAlert.InformedEntity[j].StopId != informedEntityID)
 
 // the regular expression's view of an elevator alert id: station (3 alphanumerics) + optional N/S + "#EL" + elevator
@@ -77,6 +78,7 @@ package nyctalerts
 //@   ensures [no-metadata-unless-asked] !e.opts.AddNyctMetadata && !elevatorID(old(*ID)) ==> alert.DescriptionText == old(alert.DescriptionText) && (alert.DescriptionText != nil ==> *alert.DescriptionText == old(*alert.DescriptionText))
 //@   ensures [no-metadata-without-mercury-data] !hasExt(alert, "E_MercuryAlert") && !elevatorID(old(*ID)) ==> alert.DescriptionText == old(alert.DescriptionText) && (alert.DescriptionText != nil ==> *alert.DescriptionText == old(*alert.DescriptionText))
 //@   ensures [informed-entities-untouched] !elevatorID(old(*ID)) ==> alert.InformedEntity == old(alert.InformedEntity) && *ID == old(*ID)
+//@   assigns *ID, alert.Cause, alert.Effect, alert.InformedEntity, alert.DescriptionText, alert.DescriptionText.Translation, elems(alert.DescriptionText.Translation), eachval(e.elevatorAlerts).InformedEntity, entries(e.elevatorAlerts), since(e.elevatorAlerts, "*gtfsrt.EntitySelector")
 //@   loop 1 invariant alert != nil && ID != nil
 //@   loop 1 invariant !elevatorID(old(*ID)) ==> alert.InformedEntity == old(alert.InformedEntity) && *ID == old(*ID) && alert.DescriptionText == old(alert.DescriptionText) && (alert.DescriptionText != nil ==> *alert.DescriptionText == old(*alert.DescriptionText))
 //@   loop 1 invariant !elevatorID(old(*ID)) ==> alert.Cause != nil && *alert.Cause == (hasPrefix(old(*ID), "lmm:planned_work") ? gtfsrt.Alert_MAINTENANCE : (hasPrefix(old(*ID), "lmm:alert") ? gtfsrt.Alert_TECHNICAL_PROBLEM : old(causeOf(alert))))
